@@ -1081,8 +1081,8 @@ class VM:
         elif op == 'icmp':
             x = s.operand(fr, a[1], a[2])
             y = s.operand(fr, a[1], a[3])
-            if type(x) is int and type(y) is int and x >= 0x1000000 and y >= 0x1000000 and a[0] not in ('eq', 'ne') \
-                    and isinstance(a[1], ir.PtrTy):
+            if s.opts.get('pointer_order', True) and type(x) is int and type(y) is int and x >= 0x1000000 and y >= 0x1000000 \
+                    and a[0] not in ('eq', 'ne') and isinstance(a[1], ir.PtrTy):
                 ax = st.mem.lookup(x); ay = st.mem.lookup(y)
                 if ax is None and st.mem.lookup(x - 1) is not None:
                     ax = st.mem.lookup(x - 1)           # one past the end
@@ -1459,7 +1459,11 @@ class VM:
             if isinstance(ty, VecTy):
                 w = getattr(ty.el, 'bits', 64)
                 if not all(isinstance(a, int) for a in x):
-                    raise Inconclusive("bitcast of a symbolic vector")
+                    if isinstance(ty2, VecTy):
+                        raise Inconclusive("bitcast of a symbolic vector to a vector")
+                    # lanes to one integer: concatenate (lane 0 lowest)
+                    parts = [to_bv(a, w) if w > 1 else z3.If(to_bool(a), z3.BitVecVal(1, 1), z3.BitVecVal(0, 1)) for a in x]
+                    return simp(z3.Concat(*reversed(parts)))
                 bitsval = 0
                 for i, a in enumerate(x):
                     bitsval |= (a & ((1 << w) - 1)) << (i * w)
